@@ -163,53 +163,65 @@ Proof. unfold Inv, v_as_scalar; cbn. lia. Qed.
 (* ------------------------------------------------------------------------------------------------ *)
 (* deserialisation *)
 
-(* what read_from does guarantee: when the product does not wrap, the ACTIVE part fits *)
-Lemma read_from_active_fits (v v' : vhdr) (h : stream_hdr) (avail : Z) :
-  0 <= sh_n h * sh_cols h * sh_size h * 8 < U64 -> v_w v = 8 ->
-  v_read_from v h avail = ROk v' ->
-  v_n v' * v_cols v' * v_size v' * v_w v' <= v_len v' /\ v_len v' = v_len v.
+Definition wf_s (h : stream_hdr) : Prop := 0 <= sh_n h /\ 0 <= sh_cols h /\ 0 <= sh_size h /\ 0 <= sh_max h.
+
+(* read_from (after repair 206cd69) leaves a well-formed receiver whatever the stream says *)
+Lemma read_from_establishes_inv (v v' : vhdr) (h : stream_hdr) (avail : Z) :
+  wf_v v -> v_w v = 8 -> wf_s h -> v_read_from v h avail = ROk v' ->
+  wf_v v' /\ Inv v' /\ v_len v' = v_len v /\ v_size v' = sh_size h /\ v_max v' <= sh_max h.
 Proof.
-  intros Hr Hw. unfold v_read_from. rewrite Z.mod_small by exact Hr.
-  destruct (Z.eqb_spec (sh_n h * sh_cols h * sh_size h * 8) (sh_len h)) as [E|]; [|discriminate]. cbn [negb].
+  intros (Hn & Hc & Hs & Hm & Hl & Hw) Hw8 (Sn & Sc & Ss & Sm). unfold v_read_from.
+  destruct ((U64 <=? sh_n h * sh_cols h) || (U64 <=? sh_n h * sh_cols h * 8) || (U64 <=? sh_n h * sh_cols h * 8 * sh_size h)); [discriminate|].
+  destruct (Z.eqb_spec (sh_n h * sh_cols h * 8 * sh_size h) (sh_len h)) as [E|]; [|discriminate]. cbn [negb].
+  destruct (Z.ltb_spec (sh_max h) (sh_size h)); [discriminate|].
   destruct (Z.ltb_spec (v_len v) (sh_len h)); [discriminate|].
   destruct (Z.ltb_spec avail (sh_len h)); [discriminate|].
-  intros R; inversion R; subst; cbn. rewrite Hw. lia.
+  intros R; inversion R; subst; clear R. unfold wf_v, Inv; cbn. rewrite Hw8.
+  assert (0 <= sh_n h * sh_cols h) as Hnc by nia.
+  destruct (Z.eqb_spec (sh_n h * sh_cols h * 8) 0) as [Z0|NZ].
+  - assert (sh_n h * sh_cols h = 0) as Hz by lia. rewrite Z.min_id. rewrite Hz. repeat split; lia.
+  - set (lb := sh_n h * sh_cols h * 8) in *. assert (0 < lb) by lia.
+    set (cap := v_len v / lb).
+    assert (lb * cap <= v_len v) by (unfold cap; apply Z.mul_div_le; lia).
+    assert (sh_size h <= cap) by (unfold cap; apply Z.div_le_lower_bound; lia).
+    assert (0 <= cap) by lia.
+    assert (sh_n h * sh_cols h * Z.min (sh_max h) cap * 8 <= lb * cap) by (unfold lb; nia).
+    repeat split; try lia; try (unfold lb in *; nia).
 Qed.
 
-(* full Inv needs two more facts about the header that nothing checks *)
-Lemma read_from_inv_partial (v v' : vhdr) (h : stream_hdr) (avail : Z) :
-  0 <= sh_n h * sh_cols h * sh_size h * 8 < U64 -> v_w v = 8 ->
-  sh_size h <= sh_max h -> sh_n h * sh_cols h * sh_max h * 8 <= v_len v ->
-  v_read_from v h avail = ROk v' -> Inv v'.
-Proof.
-  intros Hr Hw Hsm Hcap R. pose proof (read_from_active_fits v v' h avail Hr Hw R) as (H1 & H2).
-  unfold v_read_from in R. rewrite Z.mod_small in R by exact Hr.
-  destruct (Z.eqb_spec (sh_n h * sh_cols h * sh_size h * 8) (sh_len h)); [|discriminate]. cbn [negb] in R.
-  destruct (Z.ltb_spec (v_len v) (sh_len h)); [discriminate|].
-  destruct (Z.ltb_spec avail (sh_len h)); [discriminate|].
-  inversion R; subst; cbn in *. unfold Inv; cbn. rewrite Hw in *. lia.
-Qed.
-
-(* (1) max_size is committed unchecked: a well-formed writer with spare capacity and a well-formed receiver that is
-       large enough for the ACTIVE limbs give an ill-formed receiver; set_size(max_size) then passes its assert *)
-Lemma read_from_max_size_refuted :
+(* the code before the repair (v_read_from_old): witnesses of the two defects, kept for the record *)
+Lemma read_from_old_max_size_refuted :
   exists writer receiver v' grown,
     wf_v writer /\ Inv writer /\ wf_v receiver /\ Inv receiver /\
-    v_read_from receiver (v_write_hdr writer) (sh_len (v_write_hdr writer)) = ROk v' /\ ~ Inv v' /\
+    v_read_from_old receiver (v_write_hdr writer) (sh_len (v_write_hdr writer)) = ROk v' /\ ~ Inv v' /\
     v_set_size v' (v_max v') = Some grown /\
     ~ (at_end grown 0 (v_size grown - 1) <= cap_words grown).
 Proof.
   exists (mkV 4 1 1 3 128 8), (mkV 4 1 1 1 64 8), (mkV 4 1 1 3 64 8), (mkV 4 1 3 3 64 8).
   unfold wf_v, Inv; cbn. repeat split; try lia.
 Qed.
-
-(* (2) the header product wraps in release builds: n = 2^61 with an empty payload is accepted *)
-Lemma read_from_wrap_refuted :
-  exists receiver h v', wf_v receiver /\ Inv receiver /\ v_read_from receiver h 0 = ROk v' /\
+Lemma read_from_old_wrap_refuted :
+  exists receiver h v', wf_v receiver /\ Inv receiver /\ v_read_from_old receiver h 0 = ROk v' /\
     ~ (v_n v' * v_cols v' * v_size v' * v_w v' <= v_len v').
 Proof.
   exists (mkV 4 1 1 1 64 8), (mkS (2 ^ 61) 1 1 1 0), (mkV (2 ^ 61) 1 1 1 64 8).
   unfold wf_v, Inv; cbn. repeat split; try lia.
+Qed.
+(* the same streams are handled by the repaired reader: clamped resp. rejected *)
+Lemma read_from_repaired_examples :
+  v_read_from (mkV 4 1 1 1 64 8) (v_write_hdr (mkV 4 1 1 3 128 8)) 32 = ROk (mkV 4 1 1 2 64 8) /\
+  v_read_from (mkV 4 1 1 1 64 8) (mkS (2 ^ 61) 1 1 1 0) 0 = RErr.
+Proof. split; vm_compute; reflexivity. Qed.
+
+(* VecZnx / ScalarZnx::from_data after repair 2067fe8 *)
+Lemma from_data_checked_inv (len n cols size w : Z) (v : vhdr) :
+  0 <= n -> 0 <= cols -> 0 <= size -> 0 < w -> 0 <= len ->
+  v_from_data_checked len n cols size w = Some v -> wf_v v /\ Inv v.
+Proof.
+  intros Hn Hc Hs Hw Hl. unfold v_from_data_checked.
+  destruct (Z.ltb_spec (n * cols * size * w) U64); cbn [andb]; [|discriminate].
+  destruct (Z.leb_spec (n * cols * size * w) len); [|discriminate].
+  intros E; inversion E; subst. unfold wf_v, Inv; cbn. repeat split; lia.
 Qed.
 
 (* ------------------------------------------------------------------------------------------------ *)
@@ -365,8 +377,15 @@ Proof.
   exists (mkM 4 0 1 1 1 0 8), 0, 0. unfold wf_m, InvM, m_trait_at_end, m_bytes_of; cbn. repeat split; try lia.
 Qed.
 
-Lemma mat_read_from_wrap_refuted :
-  exists m m', InvM m /\ m_read_from m (2 ^ 61) 1 1 1 1 0 0 = Some m' /\ ~ InvM m'.
+Lemma mat_read_from_inv (m m' : mhdr) (n size rows cin cout len avail : Z) :
+  m_w m = 8 -> m_read_from m n size rows cin cout len avail = Some m' -> InvM m' /\ m_len m' = m_len m.
 Proof.
-  exists (mkM 4 1 1 1 1 64 8), (mkM (2 ^ 61) 1 1 1 1 64 8). unfold InvM, m_bytes_of; cbn. repeat split; try lia.
+  intros Hw8. unfold m_read_from.
+  destruct ((U64 <=? rows * cin) || (U64 <=? rows * cin * n) || (U64 <=? rows * cin * n * cout) || (U64 <=? rows * cin * n * cout * size)
+            || (U64 <=? rows * cin * n * cout * size * 8)); [discriminate|].
+  destruct (Z.eqb_spec (rows * cin * n * cout * size * 8) len) as [E|]; [|discriminate]. cbn [negb].
+  destruct (Z.ltb_spec (m_len m) len); [discriminate|].
+  destruct (Z.ltb_spec avail len); [discriminate|].
+  intros R; inversion R; subst. unfold InvM, m_bytes_of; cbn. rewrite Hw8.
+  assert (rows * cin * (n * cout * size * 8) = rows * cin * n * cout * size * 8) by ring. split; [lia|reflexivity].
 Qed.
